@@ -267,6 +267,12 @@ func run(in Sx) Sx {
 		}
 		obs = append(obs, List(Int(a), Int(b), h.collect()))
 	}
+	// deadlines the code computed itself are start + 60 s + (time since start); the sweeps meant to
+	// expire them are at >= 90 s and the others at <= 45 s, so a history may take up to 15 s of real
+	// time without changing any outcome; a slower one is not evaluated
+	if time.Since(h.t0) > 15*time.Second {
+		inconclusive = true
+	}
 	if inconclusive {
 		atomic.AddInt32(&nInconclusive, 1)
 		return List(Int(-1))
@@ -363,7 +369,7 @@ func genHistory(rng *Rng) Sx {
 	var ops []Sx
 	rid := int64(0)
 	n := rng.Range(3, 40)
-	sweeps := []int64{500, 1000, 1001, 5000, 5001, 30000, 30001, 45000, 61500, 100000}
+	sweeps := []int64{500, 1000, 1001, 5000, 5001, 30000, 30001, 45000, 90000, 100000}
 	for i := 0; i < n; i++ {
 		switch k := rng.Intn(20); {
 		case k < 8:
@@ -720,7 +726,7 @@ func gen(a Args, out *Out) {
 	}
 	out.GoChecked += atomic.LoadInt64(&fullChecked)
 	if n := atomic.LoadInt32(&nInconclusive); n > 0 {
-		out.CountN("inconclusive:blocking caller neither returned nor parked within 5 s", int(n))
+		out.CountN("inconclusive:history too slow or a blocking caller neither returned nor parked within 5 s", int(n))
 	}
 }
 
